@@ -191,6 +191,26 @@ func init() {
 				obs["extended"] = gen >= 1
 				obs["status"], obs["panic"] = r.Status, r.Panic != ""
 				obs["servedWithOld"] = r.UpHits > 0 && gen == 0
+				if _, ask := c.Req["expiredReplayServed"]; ask {
+					// a session that is due for a refresh AND whose own tokens have expired, with a self-contained (cookie store) credential:
+					// the refresh fails, re-validation fails - it is not honoured, neither at the first presentation of the cookie nor at a
+					// second one (another tab, a retry) while the provider is still failing
+					cfgC := *cfg
+					cfgC.Store, cfgC.shareIdP = "cookie", w.idp
+					if wc, err := vpNewWorld(&cfgC); err == nil {
+						jarX := vpNewJar()
+						if _, err := wc.login(jarX, "alice", ""); err == nil && wc.ageSessionOpt(jarX, 2*time.Hour, true) == nil {
+							cookieX := jarX.header()
+							r1 := wc.do(vpReq{Target: "/private", Cookie: cookieX})
+							r2 := wc.do(vpReq{Target: "/private", Cookie: cookieX})
+							obs["expiredServed"], obs["expiredReplayServed"] = r1.UpHits > 0, r2.UpHits > 0
+							if r1.Panic != "" || r2.Panic != "" {
+								obs["panic"] = true
+							}
+						}
+						wc.close()
+					}
+				}
 			}
 			disarm()
 			// the proxy keeps handling other requests - also the next one of the SAME browser, with whatever session it still holds: it is
